@@ -389,10 +389,14 @@ impl Installation {
 
         let encoding_key = EncodingKey::from_bytes(encoding_key_bytes);
 
-        // Update indices with the content-addressable encoding key
+        // Update indices with the content-addressable encoding key and
+        // persist them: the installation has no other save point, so an
+        // entry that only lives in memory is lost when it is closed
+        // (`DynamicContainer::write` saves the same way).
         {
             let mut index_manager = self.index_manager.write().await;
             index_manager.add_entry(&encoding_key, archive_id, archive_offset, size)?;
+            index_manager.save_all()?;
         }
 
         info!(
